@@ -101,6 +101,7 @@ def run_job(job):
         os.mkdir(os.path.join(w, "elsewhere"))     # a cwd that is neither the root nor its parent
         links = decorate(rng, w, root_name, rng.randint(1, 8))
         real_dirs, ids = reachable(root)
+        _rd_out, ids_out = reachable(os.path.join(w, "out"))
         plain_snapshot = None
         for qi in range(job["queries"]):
             spelling = rng.choice(["rel", "abs", "dot", "from-elsewhere"])
@@ -123,6 +124,15 @@ def run_job(job):
                 neutral = rng.choice([" mindepth 1", " mindepth 1", " mindepth 0", " maxdepth 90", " mindepth 1 maxdepth 90", " maxdepth 0"])
             opt = rng.choice([" symlinks", " sym", " SYMLINKS"]) if follow else ""
             query = "path from %s%s%s%s into list" % (quote_path(frm), window or neutral, opt, mode)
+            two = follow and not window and rng.random() < 0.2
+            if two:
+                # a second root (the directory outside the tree that some links lead to), also followed: what is reachable from
+                # either root is listed, still once per real directory
+                frm2 = os.path.relpath(os.path.join(w, "out"), cwd) if spelling != "abs" else os.path.join(w, "out")
+                parts = ["%s%s%s%s" % (quote_path(frm), neutral, opt, mode), "%s%s" % (quote_path(frm2), opt)]
+                if rng.random() < 0.5:
+                    parts.reverse()
+                query = "path from %s into list" % ", ".join(parts)
             r = runner.run([query], cwd=cwd, home=home, trace=(qi % 2 == 0))
             res.ev()
             ctx = {"query": query, "cwd": os.path.relpath(cwd, w), "links": [(os.path.relpath(l, w), k, os.readlink(l)) for l, k in links],
@@ -162,7 +172,7 @@ def run_job(job):
                     break
                 ident = (os.path.realpath(os.path.dirname(a)), os.path.basename(a))
                 seen_ids[ident] += 1
-                if ident not in ids:
+                if ident not in ids and not (two and ident in ids_out):
                     res.viol("`%s`: row %r comes from a directory that is not reachable from the root" % (query, x), ctx)
                     bad = True
                     break
@@ -178,7 +188,7 @@ def run_job(job):
                 res.viol("`%s`: status %s, stderr %r on a fully readable tree (links: %s)" % (query, r.rc, r.err[:200], sorted(set(k for _l, k in links))), ctx)
                 continue
             if not window:
-                missing = ids - set(seen_ids)
+                missing = (ids | ids_out if two else ids) - set(seen_ids)
                 if missing:
                     ctx["missing"] = [os.path.join(os.path.relpath(d, w), n) for d, n in sorted(missing)[:6]]
                     res.viol("`%s`: %d entries behind links are not listed (e.g. %s)" % (query, len(missing), ctx["missing"][:3]), ctx)
@@ -194,6 +204,8 @@ def run_job(job):
                 res.cover("link_kinds", k)
             res.cover("cases", "follow" + ("-window" if window else "-neutral-window" if neutral else ""))
             res.cover("spelling", spelling)
+            if two:
+                res.count("two_followed_roots")
             behind = len(real_dirs) - sum(1 for dp, dn, fn in os.walk(root) for _ in [0])
             if len(real_dirs) > 1:
                 res.nt("follow|%s|%s|%s|%d" % (sorted(k for _l, k in links), spelling, mode.strip(), len(ids)))
@@ -213,10 +225,10 @@ def main(chk):
         rule="random trees decorated with 1..8 links: absolute and relative targets, to directories inside / outside / above the root, to "
              "ancestors (cycles), to the root, to '.', chains, mutual pairs, self-links, links to files, dangling links, at any depth; root "
              "spelled relative, absolute, '.', or '../x' from another cwd (a target wrongly resolved against the cwd goes wrong visibly); "
-             "bfs/dfs; with `symlinks`: termination (CPU limit), every row exists, identity (real directory, name) listed exactly once, every "
+             "bfs/dfs; a fifth of the unwindowed queries also follow links from a second root (the directory outside the tree); with `symlinks`: termination (CPU limit), every row exists, identity (real directory, name) listed exactly once, every "
              "identity reachable through directories and links-to-directories listed (no depth window), status 0 and empty stderr; without "
              "the option: exactly the plain walk. Non-trivial = a directory behind a link is reachable; distinct by (link kinds, spelling, "
              "mode, identities).",
         assumptions=["reachability is computed with os.path.realpath / os.path.isdir on the harness side", "with a depth window only the safety clauses are judged, except windows that exclude nothing (mindepth 0/1, maxdepth 0/90), which are judged like no window"],
-        require={"link_kinds": 11, "cases": 5, "spelling": 4},
+        require={"link_kinds": 11, "cases": 5, "spelling": 4, "two_followed_roots": 50},
     )
